@@ -687,11 +687,14 @@ impl Analyzer
 				let location_of_declaration =
 					name_of_container.location.clone();
 				let location_of_member = name_of_member.location.clone();
+				// A constant is part of the cycle if the structure contains it
+				// and it in turn contains the structure.
 				let cycle = container.contained_ids.clone();
 				let constant_in_cycle = self
 					.containers
 					.iter()
 					.filter(|x| !x.is_structure)
+					.filter(|x| x.contained_ids.contains(&container_id))
 					.find(|x| cycle.contains(&x.identifier.resolution_id));
 				if let Some(constant) = constant_in_cycle
 				{
